@@ -475,6 +475,16 @@ func TestC12(t *testing.T) {
 
 		// (iv) round trips
 		fn := rapid.StringOfN(rapid.SampledFrom([]rune("abcXYZ09_-. !#")), 1, 12, -1).Draw(rt, "fn")
+		if rapid.IntRange(0, 2).Draw(rt, "fn-raw") == 0 {
+			// any bytes except '@' are a function name: 4-byte selectors, invalid UTF-8, control bytes
+			raw := rapid.SliceOfN(rapid.Byte(), 1, 8).Draw(rt, "fn-bytes")
+			for i := range raw {
+				if raw[i] == '@' {
+					raw[i] = 'A'
+				}
+			}
+			fn = string(raw)
+		}
 		nargs := rapid.IntRange(0, 6).Draw(rt, "nargs")
 		args := make([][]byte, nargs)
 		for i := range args {
@@ -560,9 +570,36 @@ func TestC12(t *testing.T) {
 			}
 		}
 	})
+
+	// (v) the built-in functions' own message encoder, on generated histories: every emitted data string, and every
+	// attached call continued on the executing shard, must parse to exactly what was encoded
+	runHistories(t, historyCfg{prop: "C12", weights: c12EngineWeights, minSteps: 8, maxSteps: 40, stats: st, nontrivial: func(rec *CallRecord, g *Gen) (string, bool) {
+		if !rec.Res.OK() || rec.Res.Out == nil {
+			return "", false
+		}
+		for _, oa := range rec.Res.Out.OutputAccounts {
+			if oa == nil {
+				continue
+			}
+			for _, ot := range oa.OutputTransfers {
+				if len(ot.Data) > 0 {
+					return sprintf("emitted|%s|%s|nargs=%d|%s", rec.Call.Fn, rec.V.Side, len(rec.Call.Args), shapeKey(g)), true
+				}
+			}
+		}
+		return "", false
+	}})
 }
 
+// c12EngineWeights: histories rich in transfers with attached calls, whose emitted data strings (the built-in
+// functions' own message encoder) must parse to what was encoded.
+var c12EngineWeights = baseWeights.with(Weights{"transfer": 16, "nfttransfer": 12, "multi": 14, "deliver": 22, "issue": 8, "create": 9, "setrole": 7, "setusername": 4, "handover": 4, "burn": 3,
+	"mutate": 4, "unstructured": 1, "skv": 0, "gas": 0, "epoch": 0, "changeowner": 0, "claim": 0})
+
 func replayC12(kind string, raw json.RawMessage) (string, string) {
+	if kind == "history" {
+		return replayHistory([]string{"C12"}, nil)(kind, raw)
+	}
 	switch kind {
 	case "string":
 		var s string
